@@ -6,7 +6,7 @@ from fractions import Fraction
 import numpy as np
 
 from symx.runner import Family, arr, increasing, run_check
-from checks.rfafam import (WINDOW, shape_configs, inputs, make, effective_a, num, Geometry, windows_of,
+from checks.rfafam import (WINDOW, shape_configs, symbolic_param_configs, inputs, make, effective_a, num, Geometry, windows_of,
                            expected_window_series, lin, o_exp, o_exp_xy, o_exp_lin, o_lin_exp_xy)
 
 SHAPES = {"lin_fit": None, "exp_fit": o_exp, "exp_xy_fit": o_exp_xy, "exp_lin_fit": o_exp_lin,
@@ -66,7 +66,7 @@ class Geometry_(Family):
         else:
             cs = shape_configs(tier, WINDOW, sym_x_max_m=4, max_m=6, ns=(2, 3, 4, 6), adaptive_max_m=5)
         # the property fixes adaptive smoothing at its default 1
-        return [c for c in cs if "adaptive_smooth" not in c["p"]]
+        return [c for c in cs if "adaptive_smooth" not in c["p"]] + symbolic_param_configs(tier)
 
     def run(self, ctx, inst, strategy, m, n, grid, p):
         x, y, X, ys = inputs(ctx, m, grid)
@@ -93,7 +93,7 @@ class Geometry_(Family):
                 ctx.claim("tie:left-jump-zero", ctx.Implies(ctx.And(ctx.ne(right, 0), ctx.eq(left, 0)),
                                                             al[k] == 0 and ar[k] == a // 2), dict(info, k=k))
                 ctx.claim("windows-sum-at-most-a", al[k] + ar[k] <= a, dict(info, k=k))
-        e = Fraction(p.get("exp", "2"))
+        e = Fraction(p.get("exp", "2") if p.get("exp") != "sym" else "2")
         expv = expected_window_series(G, al, ar, bl, br, (e if ctx.symbolic else float(e)))
         for t in range((m - 1) * n + 1):
             if expv[t] is None:
